@@ -71,7 +71,7 @@ def run(pm, ctx):
             pr = I.call_method(obj, "predict", [Xnew])
             if not (K.name in ("CategoricalModel", "CategoricalMMD", "CategoricalWasserstein")):
                 sc = I.call_method(obj, "score", [Xnew, NoneV()])
-            evs = [e for e in dedup_events(nonusage(I.events)) if e.kind in ("axis-mismatch", "index-space")]
+            evs = [e for e in dedup_events(nonusage(I.events)) if e.kind in ("axis-mismatch", "index-space", "unequal-split")]
             # the categorical models are transductive: predicting new data is outside their contract
             if K.name.startswith("Categorical"):
                 evs = [e for e in evs if not any(q.endswith(".predict") or q.endswith(".predict_proba") or q.endswith(".score") for q in e.ctxpath)]
